@@ -338,16 +338,25 @@ Only the faults the harness scripts for this family: `W` = WriteTimeout of write
 `received > 0`, which the policy answers with `IgnoreWriteError` (downgrading_consistency.rs 151-163)
 - the decision that makes `query_remaining_pages` return silently (pager.rs 220-226) and
 `query_first_page` hand out an empty page with `NoMorePages` (278-290); `o` Overloaded (RetryNextTarget,
-plan exhausted: final); `u` as before; `d` harmless. -/
-def dgAttempts (afterUnprepared : Bool) : List Char → List Attempt
+plan exhausted: final); `Q` / `V`: a ReadTimeout with too few replies / an Unavailable with one replica
+alive, answered with `RetrySameTarget(Some(ONE))` (77-100, 122-146): the request is re-sent at a LOWER
+consistency and - as every attempt - with the page loop's current paging state; the policy retries once per
+page (`was_retry`), after which every error, a WriteTimeout included, is final; `u` as before; `d` harmless. -/
+def dgAttempts (afterUnprepared wasRetry : Bool) : List Char → List Attempt
   | [] => [.ok]
   | 'u' :: rest =>
-    if afterUnprepared then [.fail "DbError:9472"] else .retry :: dgAttempts true rest
-  | 'W' :: _ => [.ignore]
+    if afterUnprepared then [.fail "DbError:9472"] else .retry :: dgAttempts true wasRetry rest
+  -- WriteTimeout(SIMPLE, received 1): IgnoreWriteError, unless this retry session has retried already
+  | 'W' :: _ => if wasRetry then [.fail "DbError:4352"] else [.ignore]
+  -- ReadTimeout with fewer replies than required (received 1 of 2): RetrySameTarget(Some(ONE)), once
+  | 'Q' :: rest => if wasRetry then [.fail "DbError:4608"] else .retry :: dgAttempts false true rest
+  -- Unavailable with one replica alive: RetrySameTarget(Some(ONE)), once
+  | 'V' :: rest => if wasRetry then [.fail "DbError:4096"] else .retry :: dgAttempts false true rest
   | 'o' :: _ => [.fail "DbError:4097"]
-  | _ :: rest => dgAttempts afterUnprepared rest
+  | _ :: rest => dgAttempts afterUnprepared wasRetry rest
 
-def dgSupported (cs : List Char) : Bool := cs.all fun c => c == 'u' || c == 'W' || c == 'o' || c == 'd'
+def dgSupported (cs : List Char) : Bool :=
+  cs.all fun c => c == 'u' || c == 'W' || c == 'o' || c == 'd' || c == 'Q' || c == 'V'
 
 /-! ### Result-metadata changes between pages (SCYLLA_USE_METADATA_ID)
 
